@@ -28,6 +28,16 @@ Theorem C20_literal_pattern_matches_itself_only : forall p s, forallb literal p 
   (match_pattern p s = Some true <-> s = p).
 Proof. exact match_literal_itself_only. Qed.
 Print Assumptions C20_literal_pattern_matches_itself_only.
+(* and for sets: matched exactly when one pattern stands in the relation; "*" in the set matches everything; the empty set nothing *)
+Theorem C20_set_matches_iff : forall ps s, is_match ps s = Some true <-> exists p, In p ps /\ Matches p s.
+Proof. exact set_matches_iff. Qed.
+Print Assumptions C20_set_matches_iff.
+Theorem C20_set_with_star_matches_everything : forall ps s, In [star] ps -> is_match ps s = Some true.
+Proof. exact set_with_star_matches_everything. Qed.
+Print Assumptions C20_set_with_star_matches_everything.
+Theorem C20_empty_set_matches_nothing : forall s, is_match [] s = Some false.
+Proof. exact empty_set_matches_nothing. Qed.
+Print Assumptions C20_empty_set_matches_nothing.
 
 (* a pattern set is refused exactly when one of its patterns is empty - wherever it stands in the set and whatever stands before it -
    and an accepted set consists of exactly the patterns given (none dropped, none added) *)
